@@ -893,6 +893,13 @@ struct SRunner {
       } break;
       case S_WALK: {
         if ((res.bits & 1u) != (m.empty() ? 1u : 0u) || !(res.bits & 2) || !(res.bits & 4) || res.count != (long)m.size()) { viol(VK_MODEL, base, "empty()/size()/cbegin()/cend() inconsistent"); return; }
+        if (s.type->flavour == SF_SMALL) {
+          // postfix-increment walk, decrement walk from end(), postfix walk of the reverse iterators
+          std::vector<Val> want = preFwd;
+          want.insert(want.end(), preFwd.rbegin(), preFwd.rend());
+          want.insert(want.end(), preFwd.rbegin(), preFwd.rend());
+          if (preFwd.size() == m.size() && res.reads != want) { viol(VK_ITER, P(11), "walking with postfix ++ / -- from end() / postfix ++ on reverse iterators does not visit the elements as prefix ++ does"); return; }
+        }
         if (s.type->flavour == SF_FLAT && !m.empty()) {
           std::vector<Val> mv(m.begin(), m.end());
           std::vector<Val> want = {mv.front(), mv.back()};
